@@ -102,6 +102,11 @@ func parseInclusiveRange(e *Ecosystem, rangeStr string) ([]*constraint, error) {
 	startStr := strings.TrimSpace(parts[0])
 	endStr := strings.TrimSpace(parts[1])
 
+	// One side left empty is an unbounded interval, as with the mixed brackets
+	if startStr == "" || endStr == "" {
+		return parseMixedRange(e, rangeStr)
+	}
+
 	startVersion, err := e.NewVersion(startStr)
 	if err != nil {
 		return nil, fmt.Errorf("invalid start version in inclusive range: %w", err)
@@ -128,6 +133,11 @@ func parseExclusiveRange(e *Ecosystem, rangeStr string) ([]*constraint, error) {
 
 	startStr := strings.TrimSpace(parts[0])
 	endStr := strings.TrimSpace(parts[1])
+
+	// One side left empty is an unbounded interval, as with the mixed brackets
+	if startStr == "" || endStr == "" {
+		return parseMixedRange(e, rangeStr)
+	}
 
 	startVersion, err := e.NewVersion(startStr)
 	if err != nil {
